@@ -430,6 +430,9 @@ func mergeLabels(c *SegCase, ins []*SegCase, drops []*roaring.Bitmap) {
 	if len(ins) >= 2 {
 		c.label("multi-input")
 	}
+	if len(ins) >= 4 {
+		c.label(">=4-inputs")
+	}
 }
 
 // GenCase draws a segment case: a leaf or a tree of merges.
@@ -444,6 +447,9 @@ func GenCase(t *rapid.T, ctx *Ctx, sc *Scenario, cfg CaseCfg, depth int, label s
 // output chunk mode, and merges.
 func GenMerge(t *rapid.T, ctx *Ctx, sc *Scenario, cfg CaseCfg, depth int, label string) (*SegCase, error) {
 	k := rapid.IntRange(1, cfg.MaxIn).Draw(t, label+":nIn")
+	if cfg.Family == FamSmall && cfg.MaxIn >= 3 && rapid.IntRange(0, 14).Draw(t, label+":manyInputs") == 0 {
+		k = rapid.IntRange(4, 12).Draw(t, label+":nInMany") // many inputs in one merge
+	}
 	ins := make([]*SegCase, k)
 	drops := make([]*roaring.Bitmap, k)
 	for i := range ins {
